@@ -81,6 +81,7 @@ NUMERIC = {
     "SparselyBin": ["binWidth", "entries", "origin"],
 }
 JUNK_NUM = ["abc", [], {}, None, ""]
+VOCAB = ["entries", "data", "type", "version", "sub:type", "w", "v", "center", "atleast", "values", "bins", "name", "sum", "low", "origin", "nanflow"]
 
 
 def positions(node, frag, path):
@@ -190,6 +191,8 @@ def mutants(sp, doc):
         out.append(("header:type-" + nm, ["type"], _set(doc, ["type"], v)))
     out.append(("header:not-an-object", [], [doc]))
     out.append(("header:add-key", ["__unknown__"], _set(doc, ["__unknown__"], 1)))
+    for vk in ("entries", "sub:type", "name", "bins"):
+        out.append(("header:add-vocabulary-key", [vk], _set(doc, [vk], 1)))
     for path, role, info in positions(sp, doc["data"], ["data"]):
         cur = _get(doc, path)
         if role == "count":
@@ -200,6 +203,10 @@ def mutants(sp, doc):
             for key in REQ[info]:
                 out.append(("struct:delete-key", path + [key], _del(doc, path + [key])))
             out.append(("struct:add-key", path + ["__unknown__"], _set(doc, path + ["__unknown__"], 1)))
+            for vk in VOCAB:
+                # a key the format uses elsewhere, but which this fragment never has (names are optional here)
+                if vk not in cur and vk not in REQ[info] and vk != "name" and not vk.endswith(":name"):
+                    out.append(("struct:add-vocabulary-key", path + [vk], _set(doc, path + [vk], 1)))
             for j in (3.5, "abc", [], None, 0, ""):
                 out.append(("struct:fragment-retype", path, _set(doc, path, j)))
             out.append(("entries:-1", path + ["entries"], _set(doc, path + ["entries"], -1)))
@@ -232,6 +239,9 @@ def mutants(sp, doc):
             for key in info:
                 out.append(("element:missing-" + ("key"), path + [key], _del(doc, path + [key])))
             out.append(("element:extra-key", path + ["__unknown__"], _set(doc, path + ["__unknown__"], 1)))
+            for vk in VOCAB:
+                if vk not in info and isinstance(cur, dict) and vk not in cur:
+                    out.append(("element:extra-vocabulary-key", path + [vk], _set(doc, path + [vk], 1)))
     return out
 
 
